@@ -16,7 +16,7 @@ hole_like is NOT judged (undocumented, outside the property) - only an informati
 Widened after the seeded-change review (classes drawn by rng inside `case`; every one has its own counter):
   models    : m = 3, 4 identical copies (exact 3-/4-fold multiplets), "chain" multiplets (copies shifted by 0.45 / 0.8 / 1.6 / 4 times
               degen_thresh, so that neighbours are closer than the threshold but the ends are not), a constant energy offset
-              (0, -7.5, +120 eV: "any offset"), 3D grids with one direction of size 1 or 7-8
+              (0, -7.5, +30 eV: "any offset"), 3D grids with one direction of size 1 or 7-8
   histories : the system first goes through public API calls (gen_systems.history_variant: rvec.copy / do_ws_dist / npz round trip),
               has all its cached properties touched (monitors.warm_caches), and the SAME calculator objects are asked a second time on a
               grid object with another NKdiv x NKFFT split of the same mesh (same k set): same answers, earlier results untouched
@@ -277,21 +277,22 @@ def direct_ranges_case(ctx, rng):
 
 
 def pending_forms(ctx, system, grid, Ef, sel, common, ref, scale, wit):
-    """select_bands / Efermi given as tuple or list instead of ndarray (the repository's own tests pass select_bands as a tuple).
-    Fires on the unchanged tree (TypeError in utility.weight_select_bands / AttributeError in StaticCalculator.__init__), therefore only
-    with VERIF_C13_PENDING=1."""
+    """select_bands given as tuple or list instead of ndarray (the repository's own tests pass select_bands as a tuple): fired on the
+    unchanged tree (TypeError in utility.weight_select_bands for groups touching the first/last band), repaired in 3763196e.
+    Efermi as list/tuple (AttributeError in StaticCalculator.__init__ for tetra=False) only with VERIF_C13_PENDING=1."""
     from wannierberri import calculators as calc
     forms = {"sel_tuple": dict(Efermi=Ef, select_bands=tuple(int(x) for x in sel)),
-             "sel_list": dict(Efermi=Ef, select_bands=[int(x) for x in sel]),
-             "ef_list": dict(Efermi=[float(x) for x in Ef], select_bands=sel),
-             "ef_tuple": dict(Efermi=tuple(float(x) for x in Ef), select_bands=sel)}
+             "sel_list": dict(Efermi=Ef, select_bands=[int(x) for x in sel])}
+    if PENDING:   # Efermi as list / tuple: StaticCalculator.__init__ raises for tetra=False (side observation, no result to judge)
+        forms.update(ef_list=dict(Efermi=[float(x) for x in Ef], select_bands=sel), ef_tuple=dict(Efermi=tuple(float(x) for x in Ef), select_bands=sel))
     for k, kw in forms.items():
         try:
             r = runner.run(system, grid, {k: calc.static.DOS(**kw, **common)}).results[k].data
         except (TypeError, AttributeError) as e:
             ctx.ev()
-            ctx.violation(f"DOS[{k}]:raises_{type(e).__name__}", f"DOS({ {a: type(b).__name__ for a, b in kw.items()} }) raises {e!r}; "
-                          "the ndarray form of the same arguments works", dict(wit, select_bands=sel))
+            types = ", ".join(f"{a}: {type(b).__name__}" for a, b in kw.items())
+            ctx.violation(f"DOS[{k}]:raises_{type(e).__name__}", f"DOS({types}) raises {e!r}; the ndarray form of the same arguments works",
+                          dict(wit, select_bands=sel))
             continue
         ctx.close(f"DOS[{k}]!=DOS[ndarray arguments]", r, ref, rtol=1e-12, scale=scale, witness=dict(wit, select_bands=sel))
     ctx.count("pending_argument_forms")
@@ -311,7 +312,11 @@ def case(ctx, rng, idx, state):
     thresh = 1e-4 if tmode == "default" else [1e-4, 1e-4, 1e-3, 0.03, 0.3, 0.8][int(rng.integers(6))]
     if variant == "generic" and rng.random() < 0.12:
         tmode, thresh = "nonpositive", [0.0, -1.0][int(rng.integers(2))]
-    offset = [0.0, 0.0, 0.0, -7.5, 120.0][int(rng.integers(5))]
+    offset = [0.0, 0.0, 0.0, -7.5, 30.0][int(rng.integers(5))]
+    if variant == "chain" and offset > 10:
+        # eigenvectors of two bands g apart carry an error ~ macheps*|H|/g: with g = 1.6e-4 and |H| = 30 the band-resolved spin would come
+        # within 2 decades of the tolerances below; the chain models take the moderate offset instead
+        offset = -7.5
     system, info = build_system(rng, variant, dim, thresh=thresh if thresh > 0 else 1e-4, offset=offset)
     # ---- the system is brought into a state reached through public API calls before the calculators see it -----------------
     hist = "as_built"
@@ -496,6 +501,15 @@ def case(ctx, rng, idx, state):
         ctx.count(f"fd_order{n}")
         if np.abs(exp).max() > 0:
             ctx.count("fd_nonzero")
+    # A formula can vanish identically for a model (Berry curvature of one band or of decoupled copies): its values are rounding noise and so
+    # is the scale above.  (b) is not affected (both sides are the same accumulations), but comparisons between DIFFERENT accumulations
+    # (k-average, selection + complement, second run) take a floor from the inputs: lattice constant a0, spectral width W, the Kubo scales
+    a0 = float(np.mean(np.linalg.norm(system.real_lattice, axis=1)))
+    W = hi - lo + 0.1
+    floors = dict(Identity=nw, Omega=orc.scale["omega"], Spin=orc.scale["spin"], VelVel=(a0 * W) ** 2, InvMass=a0 ** 2 * W,
+                  VelOmega=a0 * W * orc.scale["omega"], Morb_Hpm=orc.scale["hplus"], DerOmega=a0 * orc.scale["omega"])
+    for n, name, ka, kb, F, kf in fd_jobs:
+        SC[ka] = max(SC[ka], floors[name] / vol / dE ** n)
     ctx.close("DOS!=central_difference_of_CumDOS", R["dos"], central_diff(R["cumdos_ext1"], 1, dE), rtol=1e-9,
               scale=nw / dE, what="DOS vs (CumDOS(E+dE)-CumDOS(E-dE))/2dE", witness=wit)
     dos_ref = central_diff(orc.sea("count", Ef1)[:, 0], 1, dE)
@@ -530,7 +544,6 @@ def case(ctx, rng, idx, state):
 
     # ---------------- (c) k-resolved inside TabulatorAll ---------------------------------------------------
     tab = result.results["tab"]
-    SC[kka + "@k"] = SC[kka]
     klist = [("cumdos", "cumdos", nw), ("ahc", "ahc", orc.scale["omega"] / vol), ("morb", "morb", morb_scale), ("dos", "dos", nw / dE),
              ("dos_sel", "dos_sel", nw / dE), (kka, kka, SC[kka])]
     if tetra:
@@ -571,7 +584,8 @@ def case(ctx, rng, idx, state):
         w2 = dict(wit, NKdiv_second=NKdiv2, NKFFT_second=NKFFT2)
         for k, sc in SC.items():
             if k in before:
-                ctx.close("same_calculator_object_second_run!=first_run", result2.results[k].data, before[k], rtol=1e-9, scale=sc,
+                # rtol 1e-8 as for the sea oracles: H(k) of the second split differs in the last bits, so do near-degenerate eigenvectors
+                ctx.close("same_calculator_object_second_run!=first_run", result2.results[k].data, before[k], rtol=1e-8, scale=sc,
                           what=f"calculator '{k}' re-used on another NKdiv x NKFFT split of the same mesh", witness=dict(w2, key=k))
         ctx.ev()
         changed = [k for k, v in before.items() if not np.array_equal(v, result.results[k].data)]
@@ -580,7 +594,7 @@ def case(ctx, rng, idx, state):
             ctx.violation("earlier_result_changed_by_second_run", f"results returned by the first run() changed during the second: {changed}", w2)
         ctx.count("calculator_objects_reused")
 
-    if PENDING and rng.random() < 0.25:
+    if rng.random() < 0.25:
         pending_forms(ctx, system, grid, Ef, sel, common, R["dos_sel"], nw / dE, wit)
 
     # ---------------- exact ties the property talks about --------------------------------------------------
@@ -616,7 +630,7 @@ if __name__ == "__main__":
         PROP, "exploration", case, setup_fn=setup,
         tiers=dict(quick=dict(cases=800, shards=8, time=900), thorough=dict(cases=8000, shards=16, time=3000)),
         rule="random Hermitian models with generic SS (2-5 bands; 1-3 bands in 2-4 identical copies: exact 2-/3-/4-fold multiplets; copies "
-             "shifted by 0.45/0.8/1.6/4 degen_thresh: chain multiplets), on-site offset 0/-7.5/+120 eV, 2D and 3D, systems as built or after "
+             "shifted by 0.45/0.8/1.6/4 degen_thresh: chain multiplets), on-site offset 0/-7.5/+30 eV, 2D and 3D, systems as built or after "
              "rvec.copy / do_ws_dist / npz round trip / with warm caches, grids up to 5^3 (one direction 1 or 7-8) / 9^2 split at random "
              "into NKdiv x NKFFT, degen_thresh default / {1e-4,1e-3,.03,.3,.8} / {0,-1}, degen_Kramers, uniform Fermi grids (1-22 or "
              "100/128/257 points, spacing 2e-3..1, covering the bands / inside them / single point / outside all bands), select_bands "
@@ -640,5 +654,5 @@ if __name__ == "__main__":
                            "calculator_objects_reused", "history:rvec_copy", "history:ws_dist", "history:npz_roundtrip",
                            "history:warm_caches", "exact_tie_group_mean_on_grid", "exact_tie_integer_dtype_grid", "direct_band_ranges",
                            "direct_band_ranges_with_spans")
-        + (("pending_argument_forms",) if PENDING else ()),
+        + ("pending_argument_forms",),
     )
